@@ -214,6 +214,7 @@ type wlWorld struct {
 	accepted  []string
 	parts     []replica.Partition
 	folCount  int
+	lagged    bool
 	leaderDir string
 }
 
@@ -352,11 +353,16 @@ func (w *wlWorld) apply(op string, arg string) error {
 		}
 		w.accepted = append(w.accepted, msg)
 	case "drain":
-		deadline := time.Now().Add(6 * time.Second)
+		limit := 6 * time.Second
+		if w.lagged { // the follower already failed to catch up once in this case: do not wait as long again
+			limit = 200 * time.Millisecond
+		}
+		deadline := time.Now().Add(limit)
 		for time.Now().Before(deadline) && w.fq.Queue().AppendedSeq() < int64(len(w.accepted))-1 {
 			time.Sleep(2 * time.Millisecond)
 		}
 		w.folCount = int(w.fq.Queue().AppendedSeq() + 1)
+		w.lagged = w.folCount < len(w.accepted)
 	default:
 		return errors.New("unknown op")
 	}
@@ -503,7 +509,7 @@ func runWalCase(c *core.Ctx, i int, ops []string) {
 	}
 	defer w.destroy()
 	c.Op("reset", w.line())
-	concurrent, drained := false, false
+	concurrent, drained, twice := false, false, ""
 	ok := true
 	for _, op := range ops {
 		ws := strings.Split(op, " ")
@@ -546,8 +552,8 @@ func runWalCase(c *core.Ctx, i int, ops []string) {
 			}
 		}
 		// ---- the property on the observations
-		if len(w.parts) > 1 {
-			c.Fail("wal-log-directory-opened-twice", fmt.Sprintf("after %q: %d distinct Partition objects (each with its own append/consume/ack cursors and replica loop) were handed out for the one log directory of (shard 1, family, leader 1)", op, len(w.parts)))
+		if len(w.parts) > 1 && twice == "" {
+			twice = op
 		}
 		if op == "drain" {
 			drained = drained || len(w.accepted) > 0
@@ -579,6 +585,9 @@ func runWalCase(c *core.Ctx, i int, ops []string) {
 		if gack > int64(len(fol))-1 {
 			c.Fail("wal-ack-beyond-follower", fmt.Sprintf("leader's group of the follower acknowledged up to %d, follower appended up to %d", gack, len(fol)-1))
 		}
+	}
+	if twice != "" { // reported after what it does to the two logs
+		c.Fail("wal-log-directory-opened-twice", fmt.Sprintf("after %q: %d distinct Partition objects (each with its own append/consume/ack cursors and replica loop) were handed out for the one log directory of (shard 1, family, leader 1)", twice, len(w.parts)))
 	}
 	if concurrent && drained {
 		c.NonTrivial()
